@@ -61,6 +61,10 @@ type c20Flow struct {
 	ExtraUTXOs []uint64 `json:"extra_seller_utxos,omitempty"`
 	// Wallet: bit 0 the seller, bit 1 the buyer signs through the monitor's own bt.Unlocker instead of unlocker.Simple
 	Wallet int `json:"own_unlockers,omitempty"`
+	// AcceptDelta: the seller validates the bid against an amount that differs from the one offered by this much
+	AcceptDelta int64 `json:"accept_amount_delta,omitempty"`
+	// BuyerInscrLen: payload bytes of the inscription the buyer receives the ordinal into (0 = 3 bytes)
+	BuyerInscrLen int `json:"buyer_inscription_bytes,omitempty"`
 }
 
 type c20Inscr struct {
@@ -192,7 +196,11 @@ func c20JudgeFlow(c *mon.Ctx, f *c20Flow) {
 	buyerRecv := bscript.NewFromBytes(append([]byte{}, *buyerScript...))
 	if f.BuyerInscr {
 		t := bt.NewTx()
-		_ = t.Inscribe(&bscript.InscriptionArgs{LockingScriptPrefix: bscript.NewFromBytes(append([]byte{}, *buyerScript...)), Data: []byte{1, 2, 3}, ContentType: "x/y"})
+		data := []byte{1, 2, 3}
+		if f.BuyerInscrLen > 0 {
+			data = prng.New(uint64(f.BuyerInscrLen), "C20-buyer-inscription", 0).Bytes(f.BuyerInscrLen)
+		}
+		_ = t.Inscribe(&bscript.InscriptionArgs{LockingScriptPrefix: bscript.NewFromBytes(append([]byte{}, *buyerScript...)), Data: data, ContentType: "x/y"})
 		buyerRecv = t.Outputs[0].LockingScript
 	}
 	dummyScript := bscript.NewFromBytes(append([]byte{}, *buyerScript...))
@@ -233,7 +241,7 @@ func c20JudgeFlow(c *mon.Ctx, f *c20Flow) {
 			if err != nil {
 				return
 			}
-			final, err = ord.AcceptBidToBuy1SatOrdinal(ctx, &ord.ValidateBidArgs{OrdinalUTXO: ordUTXO, BidAmount: f.Price, ExpectedFQ: fq},
+			final, err = ord.AcceptBidToBuy1SatOrdinal(ctx, &ord.ValidateBidArgs{OrdinalUTXO: ordUTXO, BidAmount: uint64(int64(f.Price) + f.AcceptDelta), ExpectedFQ: fq},
 				&ord.AcceptBidArgs{PSTx: pstx, SellerReceiveScript: bscript.NewFromBytes(append([]byte{}, *sellerRecv...)), OrdinalUnlocker: sellerUnlocker})
 		case "bid-2d":
 			var pstx *bt.Tx
@@ -258,7 +266,7 @@ func c20JudgeFlow(c *mon.Ctx, f *c20Flow) {
 				extras = append(extras, &bt.UTXO{TxID: id, Vout: uint32(i), LockingScript: bscript.NewFromBytes(append([]byte{}, *sellerScript...)), Satoshis: v, Unlocker: &sellerUnlocker})
 				coins[outKey(id, uint32(i))] = c20Coin{v, append([]byte{}, *sellerScript...)}
 			}
-			final, err = ord.AcceptBidToBuy1SatOrdinal2Dummies(ctx, &ord.ValidateBid2DArgs{PreviousUTXOs: prevs, BidAmount: f.Price, ExpectedFQ: fq},
+			final, err = ord.AcceptBidToBuy1SatOrdinal2Dummies(ctx, &ord.ValidateBid2DArgs{PreviousUTXOs: prevs, BidAmount: uint64(int64(f.Price) + f.AcceptDelta), ExpectedFQ: fq},
 				&ord.AcceptBid2DArgs{PSTx: pstx, SellerReceiveOrdinalScript: bscript.NewFromBytes(append([]byte{}, *sellerRecv...)), OrdinalUnlocker: sellerUnlocker, ExtraUTXOs: extras})
 		}
 	})
@@ -315,6 +323,10 @@ func c20JudgeFlow(c *mon.Ctx, f *c20Flow) {
 			c.Violationf("C20:seller-output-changed:"+f.Flow, "the output at the seller's input index %d is not the seller's requested payment (%d sat to %x); tx=%x", ordIdx, f.Price, []byte(*sellerRecv), final.Bytes())
 		}
 	}
+	deltaTag := ""
+	if f.AcceptDelta != 0 {
+		deltaTag = ":accept-amount-differs-from-offer"
+	}
 	// (3) first-in-first-out routing of the ordinal satoshi
 	if ordIdx >= 0 {
 		off := new(big.Int)
@@ -333,10 +345,10 @@ func c20JudgeFlow(c *mon.Ctx, f *c20Flow) {
 		}
 		if dest < 0 {
 			good = false
-			c.Violationf("C20:ordinal-burned-as-fee:"+f.Flow, "the ordinal satoshi (offset %s) lies beyond the last output: it is paid as fee; tx=%x", off, final.Bytes())
+			c.Violationf("C20:ordinal-burned-as-fee:"+f.Flow+deltaTag, "the ordinal satoshi (offset %s) lies beyond the last output: it is paid as fee; tx=%x", off, final.Bytes())
 		} else if !bytes.Equal(*final.Outputs[dest].LockingScript, *buyerRecv) {
 			good = false
-			c.Violationf("C20:ordinal-misrouted:"+f.Flow, "under first-in-first-out ordering the ordinal satoshi (offset %s) lands in output %d (script %x), not in the buyer's script; tx=%x", off, dest, []byte(*final.Outputs[dest].LockingScript), final.Bytes())
+			c.Violationf("C20:ordinal-misrouted:"+f.Flow+deltaTag, "under first-in-first-out ordering the ordinal satoshi (offset %s) lands in output %d (script %x), not in the buyer's script; tx=%x", off, dest, []byte(*final.Outputs[dest].LockingScript), final.Bytes())
 		} else {
 			c.Count("C20:ordinal-routed-to-buyer")
 		}
@@ -495,6 +507,12 @@ func init() {
 			}
 			f.FundShare = prng.Pick(r, []int{0, 0, 0, 1, 2, 3})
 			f.Wallet = prng.Pick(r, []int{0, 0, 1, 2, 3, 3})
+			if f.BuyerInscr && r.Chance(1, 3) {
+				f.BuyerInscrLen = prng.Pick(r, []int{16385, 20000, 40000})
+			}
+			if (f.Flow == "bid" || f.Flow == "bid-2d") && r.Chance(1, 4) && f.Price > 2 {
+				f.AcceptDelta = prng.Pick(r, []int64{-1, 1, 150, 300, 5000, 1000000})
+			}
 			f.Quote.Label = prng.Pick(r, []int{0, 0, 1, 2})
 			f.OrdWide = f.OrdInscr && r.Chance(1, 4)
 			if f.OrdInscr && r.Chance(1, 5) { // inscriptions around and beyond the pre-Genesis script size limit
